@@ -693,7 +693,7 @@ func c01Repl(c *core.Ctx, res *core.Result, r *core.Rng, i int) {
 		return ""
 	}
 	run := func(ls []string) (string, string) {
-		cmd := exec.Command(zygoBin, "-no-liner", "-quiet")
+		cmd := core.DieWithParent(exec.Command(zygoBin, "-no-liner", "-quiet"))
 		cmd.Stdin = strings.NewReader(strings.Join(ls, "\n") + "\n")
 		cmd.Dir = c.Work
 		var buf bytes.Buffer
@@ -726,7 +726,7 @@ func c01Repl(c *core.Ctx, res *core.Result, r *core.Rng, i int) {
 	// cmd/zygo -c
 	for k := 0; k < 6; k++ {
 		t := lines[r.N(len(lines))]
-		cmd := exec.Command(zygoBin, "-c", t)
+		cmd := core.DieWithParent(exec.Command(zygoBin, "-c", t))
 		cmd.Dir = c.Work
 		out, err := cmd.CombinedOutput()
 		res.Ev("cli_runs", 1)
